@@ -8,7 +8,7 @@ from more_executors._impl.common import (
     copy_future_exception,
     try_set_result,
 )
-from .base import f_return, chain_cancel, weak_callback
+from .base import f_return, chain_cancel, weak_callback, notify_cancel
 from .check import ensure_futures
 from ..metrics import track_future
 
@@ -41,6 +41,7 @@ class Zipper(object):
         self.lock = Lock()
         self.count_remaining = len(self.fs)
 
+        self.out.add_done_callback(notify_cancel)
         for (idx, future) in enumerate(self.fs):
             chain_cancel(self.out, future)
             future.add_done_callback(weak_callback(partial(self.handle_done, idx)))
